@@ -31,6 +31,7 @@ class C05(C.ProgramDiff):
     assumptions = ['CPython 3.12 of /venv', 'reference interpreter R cross-checked with explicit-stack engine M',
                    'cuts in conditions, under \\+ and inside meta-call arguments are not generated (outside the property)']
     cases = {'quick': 2400, 'thorough': 40000}
+    split_scripts = True
     cfg = gen.with_cfg(control=frozenset(['cut', ';', 'ite', '->', 'not']))
     answer_limit = 200
 
